@@ -94,6 +94,11 @@ def main():
             old = json.load(open(os.path.join(out, 'meta.json')))
             for p, v in old.get('checks', {}).items():
                 meta['checks'].setdefault(p, v)
+            for fld in ('history', 'first_evaluation'):
+                if fld in old:
+                    meta[fld] = old[fld]
+        if 'first_evaluation' not in meta:
+            meta['first_evaluation'] = {p: v['status'] for p, v in meta['checks'].items()}
         meta['what_was_run'] = ("selftest/eval_seeded.py: demo on unchanged scratch copy (exit 0), patch -p1, repository tests "
                                 "(must pass), demo with the change (exit 1), then check.py <property> against the patched copy via VERIF_REPO")
         with open(os.path.join(out, 'meta.json'), 'w') as fh:
